@@ -234,6 +234,15 @@ func (i *c17InfoUG) Sys() any    { return nil }
 func (i *c17InfoUG) Uid() uint32 { return i.uid }
 func (i *c17InfoUG) Gid() uint32 { return i.gid }
 
+// c17InfoBoth wraps a real file's system data (another owner) and states the owner to present.
+type c17InfoBoth struct{ c17Info }
+
+func (i *c17InfoBoth) Sys() any {
+	return &syscall.Stat_t{Uid: i.uid + 1000, Gid: i.gid + 2000, Nlink: 2}
+}
+func (i *c17InfoBoth) Uid() uint32 { return i.uid }
+func (i *c17InfoBoth) Gid() uint32 { return i.gid }
+
 func c17CmpInfo(got os.FileInfo, size int64, mode os.FileMode, mtime int64, uid, gid uint32) string {
 	var d []string
 	if got.Size() != size {
@@ -262,6 +271,7 @@ func c17Codec(c *reg.Ctx) *reg.Result {
 	mtimes := []int64{0, 1, 1_000_000_000, 1<<31 - 1, 1 << 31, 1<<32 - 1}
 	owners := [][2]uint32{{0, 0}, {1, 2}, {65534, 65533}, {1<<32 - 1, 1<<32 - 2}}
 	var i int64
+	both := false
 	one := func(m os.FileMode, size, mtime int64, own [2]uint32, viaSys bool) {
 		i++
 		if !c.Mine(i) {
@@ -272,7 +282,10 @@ func c17Codec(c *reg.Ctx) *reg.Result {
 		if viaSys {
 			fi = &c17InfoSys{base}
 		}
-		desc := fmt.Sprintf("mode=%v size=%d mtime=%d owner=%d:%d viaSys=%v", m, size, mtime, own[0], own[1], viaSys)
+		if both {
+			fi = &c17InfoBoth{base}
+		}
+		desc := fmt.Sprintf("mode=%v size=%d mtime=%d owner=%d:%d viaSys=%v uidgid+sys=%v", m, size, mtime, own[0], own[1], viaSys, both)
 		res.Case(desc)
 		if i%5003 == 0 {
 			res.Sample(desc)
@@ -291,6 +304,10 @@ func c17Codec(c *reg.Ctx) *reg.Result {
 		}
 		if d := c17CmpInfo(fileInfoFromStat(fs2, "n"), size, m, mtime, own[0], own[1]); d != "" {
 			res.Violate("C17", "c17-codec-identity", fmt.Sprintf("fileStatFromInfo->marshal->unmarshal->fileInfoFromStat of %s: %s", desc, d), desc, nil)
+		}
+		// the long name a listing would carry for the same entry names the same owner
+		if lf := strings.Fields(runLs(nil, fi)); len(lf) < 9 || lf[2] != fmt.Sprint(fs.UID) || lf[3] != fmt.Sprint(fs.GID) {
+			res.Violate("C17", "c17-codec-longname-owner", fmt.Sprintf("runLs of %s gives %q but the attributes carry owner %d:%d", desc, strings.Join(lf, " "), fs.UID, fs.GID), desc, nil)
 		}
 		// 2. the ATTRS response packet as a server sends it
 		pb, err := (&sshFxpStatResponse{ID: 7, info: fi}).MarshalBinary()
@@ -321,12 +338,17 @@ func c17Codec(c *reg.Ctx) *reg.Result {
 					for _, o := range owners {
 						one(k.os|p, s, t, o, true)
 						one(k.os|p, s, t, o, false)
+						if o[0] < 1<<31 {
+							both = true
+							one(k.os|p, s, t, o, false)
+							both = false
+						}
 					}
 				}
 			}
 		}
 	}
-	res.Bound = fmt.Sprintf("all 28672 os.FileMode values with rotating (size, mtime, owner) plus 7 kinds x 6 boundary permission words x %d sizes x %d mtimes x %d owners x 2 owner sources", len(sizes), len(mtimes), len(owners))
+	res.Bound = fmt.Sprintf("all 28672 os.FileMode values with rotating (size, mtime, owner) plus 7 kinds x 6 boundary permission words x %d sizes x %d mtimes x %d owners x 3 owner sources (Sys() only, Uid()/Gid() only, both with different owners)", len(sizes), len(mtimes), len(owners))
 	return res
 }
 
